@@ -20,6 +20,8 @@ type SBinder struct {
 type SType struct {
 	Ptr   *SType
 	Slice *SType
+	MapK  *SType
+	MapV  *SType
 	Pkg   string
 	Name  string
 }
@@ -30,6 +32,8 @@ func (t *SType) String() string {
 		return "*" + t.Ptr.String()
 	case t.Slice != nil:
 		return "[]" + t.Slice.String()
+	case t.MapK != nil:
+		return "map[" + t.MapK.String() + "]" + t.MapV.String()
 	case t.Pkg != "":
 		return t.Pkg + "." + t.Name
 	}
@@ -232,6 +236,12 @@ func (p *sparser) typ() *SType {
 		p.next()
 		p.expect(token.RBRACK)
 		return &SType{Slice: p.typ()}
+	case token.MAP:
+		p.next()
+		p.expect(token.LBRACK)
+		k := p.typ()
+		p.expect(token.RBRACK)
+		return &SType{MapK: k, MapV: p.typ()}
 	case token.IDENT:
 		n := p.next().lit
 		if p.peek() == token.PERIOD {
